@@ -3,4 +3,6 @@ import Driver
 def main (args : List String) : IO UInt32 := do
   match args with
   | ["ring"] => Driver.RingC.main; return 0
+  | ["sessin"] => Driver.SessInC.mainS; return 0
+  | ["listener"] => Driver.SessInC.mainL; return 0
   | _ => IO.eprintln "usage: kcpdriver <component>"; return 2
